@@ -3,6 +3,7 @@ package c32
 import (
 	"bytes"
 	"fmt"
+	"strings"
 	"testing"
 
 	"github.com/nspcc-dev/neofs-node/verifharness/ev"
@@ -230,6 +231,32 @@ func refAuthorised(req proto.Message, sigFd protoreflect.FieldDescriptor, allowe
 
 // ---------------------------------------------------------------- the oracle
 
+// diffLines lists the lines present in only one of two state renderings.
+func diffLines(before, after string) string {
+	count := func(s string) map[string]int {
+		m := map[string]int{}
+		for _, l := range strings.Split(s, "\n") {
+			m[l]++
+		}
+		return m
+	}
+	b, a := count(before), count(after)
+	var sb strings.Builder
+	for _, l := range strings.Split(before, "\n") {
+		if a[l] < b[l] {
+			sb.WriteString("- " + l + "\n")
+			b[l]--
+		}
+	}
+	for _, l := range strings.Split(after, "\n") {
+		if b[l] < a[l] {
+			sb.WriteString("+ " + l + "\n")
+			a[l]--
+		}
+	}
+	return sb.String()
+}
+
 type fataler interface {
 	Fatalf(format string, args ...any)
 }
@@ -288,8 +315,8 @@ func runCase(t fataler, svc *service, pristine, live target, c tcase, strict boo
 				svc.name, pristine.effects().since(calls), c, note, res)
 		}
 		if after := pristine.observe(); after != before {
-			t.Fatalf("%s: unauthorised request changed state\ncase: %v (%s)\nresult: %v\n--- before\n%s\n--- after\n%s",
-				svc.name, c, note, res, before, after)
+			t.Fatalf("%s: unauthorised request changed state\ncase: %v (%s)\nresult: %v\nstate diff (- before, + after):\n%s",
+				svc.name, c, note, res, diffLines(before, after))
 		}
 	}
 
